@@ -89,6 +89,21 @@ func NewVoteDriver(n int, symmetry bool, full bool) *VoteDriver {
 	return d
 }
 
+// NewVoteTimingDriver restricts the alphabet to setConfig votes for two ids by every member and
+// clock steps, with more waits allowed: histories of two live ballots whose gaps interleave.
+func NewVoteTimingDriver(n int) *VoteDriver {
+	d := &VoteDriver{N: n, Symmetry: n >= 3, MaxAdv: 4}
+	for _, k := range []string{"setA", "setB"} {
+		for i := 0; i < n; i++ {
+			d.ops = append(d.ops, voteOp{kind: k, who: i})
+		}
+	}
+	for _, dl := range []uint32{1, 10, 19, 21} {
+		d.ops = append(d.ops, voteOp{kind: "advance", delta: dl})
+	}
+	return d
+}
+
 const c17Deposit = 100_0000_0000
 
 func (d *VoteDriver) Build() *World {
